@@ -2792,6 +2792,11 @@ class _LoopMixin:
             inners = [self.concrete_iter(a) for a in it.args]
             if all(i is not None for i in inners):
                 return [self.mk_list(list(t), "tuple") for t in zip(*inners)]
+        if isinstance(it, Op) and it.op == "zipl":
+            import itertools
+            inners = [self.concrete_iter(a) for a in it.args[1:]]
+            if all(i is not None for i in inners):
+                return [self.mk_list(list(t), "tuple") for t in itertools.zip_longest(*inners, fillvalue=it.args[0])]
         return None
 
     def small_count_guards(self, n):
@@ -3001,6 +3006,14 @@ class _LoopMixin:
                     if ln not in lens:
                         lens.append(ln)
                 L.trip = lens[0] if len(lens) == 1 else Op("min", *lens)
+                elem = self.elem_of(it, L)
+            elif isinstance(it, Op) and it.op == "zipl":
+                lens = []
+                for a in it.args[1:]:
+                    ln = self.x_len([a], {}, None)
+                    if ln not in lens:
+                        lens.append(ln)
+                L.trip = lens[0] if len(lens) == 1 else Op("max", *lens)
                 elem = self.elem_of(it, L)
             elif isinstance(it, Op) and it.op == "iter_unpack":
                 # one tuple of fields per complete record of the buffer
@@ -3261,6 +3274,10 @@ class _LoopMixin:
         element term (re-indexed); anything else stays opaque."""
         if isinstance(it, Op) and it.op == "zip":
             return self.mk_list([self.elem_of(a, L) for a in it.args], "tuple")
+        if isinstance(it, Op) and it.op == "zipl":
+            # zip_longest: a sequence that has run out contributes the fill value
+            return self.mk_list([ite(compare("lt", L.idx, self.x_len([a], {}, None)), self.elem_of(a, L), it.args[0])
+                                 for a in it.args[1:]], "tuple")
         if isinstance(it, Op) and it.op == "reversed":
             return Op("elem", it, L.idx)
         if isinstance(it, Ref):
@@ -3380,6 +3397,8 @@ class _ExtMixin:
                 return Const(len(v.v))
             except Exception:
                 return Op("len", v)
+        if isinstance(v, Op) and v.op == "range" and all(is_int(x) for x in v.args):
+            return Const(len(range(*[x.v for x in v.args])))
         if isinstance(v, Ref):
             o = self.heap[v.oid]
             if isinstance(o, Instance) and isinstance(self.class_attr(o.cls, "__len__"), FuncV):
@@ -3541,7 +3560,18 @@ class _ExtMixin:
         return Op("enumerate", *a, *([k["start"]] if "start" in k else []))
 
     def x_zip(self, a, k, n):
+        cells = [self.iter_cell(x) for x in a]
+        if len(a) >= 2 and cells[0] is not None and all(c is cells[0] for c in cells):
+            # zip(*[iter(xs)] * n): one iterator in every position - the groups of n consecutive elements (an incomplete last
+            # group is dropped), i.e. zip(xs[0::n], xs[1::n], ..)
+            rest = self.drain(a[0])
+            return Op("zip", *[self.getslice(rest, Const(i), NONE, Const(len(a)), n) for i in range(len(a))])
         return Op("zip", *[self.drain(x) for x in a])
+
+    def x_itertools_zip_longest(self, a, k, n):
+        if set(k) - {"fillvalue"} or not a:
+            return None
+        return Op("zipl", k.get("fillvalue", NONE), *[self.drain(x) for x in a])
 
     def x_reversed(self, a, k, n):
         return Op("reversed", *a)
@@ -3811,7 +3841,8 @@ class _ExtMixin:
             v = self.simp(a[0])
             if isinstance(v, Ref) and isinstance(self.heap.get(v.oid), IterObj):
                 return v                    # iter(iterator) is the iterator
-            if self.as_list(v) is not None or (isinstance(v, Const) and isinstance(v.v, (tuple, list, str, bytes))):
+            if self.as_list(v) is not None or (isinstance(v, Const) and isinstance(v.v, (tuple, list, str, bytes))) or \
+                    (isinstance(v, Op) and v.op == "getslice"):
                 return self.alloc(IterObj(self.born_now(), v, Const(0)))
         if len(a) == 2 and not k:
             # iter(callable, sentinel): calls until the sentinel comes back - unrolled where a bound is known (islice)
@@ -4242,6 +4273,7 @@ class _ExtMixin:
                      ("lshift", "lshift"), ("rshift", "rshift"), ("floordiv", "floordiv"), ("mod", "mod")):
         locals()["x_operator_" + _nm] = _operator_binop(_op)
         locals()["x_operator_i" + _nm.rstrip("_")] = _operator_binop(_op, True)
+        locals()["x_int___%s__" % _nm.rstrip("_")] = _operator_binop(_op)       # int.__and__(a, b) is a & b for integers
     del _nm, _op
 
     def x_operator_itemgetter(self, a, k, n):
